@@ -958,7 +958,7 @@ func main() {
 	}
 	rng := hx.NewRng(a.Seed)
 	search := a.Tier == "search"
-	for run.NOps < a.N {
+	for run.NOps < a.N && !run.Enough() {
 		nv := 3 + rng.Intn(10)
 		randList := func() []uint64 {
 			switch c := rng.Intn(100); {
